@@ -102,7 +102,9 @@ package crypto
 //@   requires forall k in 0..len(in) :: (in[k] != nil ==> allocated(in[k]))
 //@   ensures result1 == nil ==> (len(result0) == 2 * len(in) && fresh(result0))
 //@   ensures result1 == nil ==> forall k in 0..len(in) :: (in[k] != nil && result0[2*k] == in[k].coords[0] && result0[2*k+1] == in[k].coords[1] && result0[2*k] != nil && result0[2*k+1] != nil)
+//@   ensures result1 == nil ==> (forall j in 0..len(result0) :: result0[j] != nil)
 //@   loop 0 invariant len(flat) == 2 * $iter && fresh(flat)
+//@   loop 0 invariant forall j in 0..len(flat) :: flat[j] != nil
 //@   loop 0 invariant forall k in 0..$iter :: (in[k] != nil && flat[2*k] == in[k].coords[0] && flat[2*k+1] == in[k].coords[1] && flat[2*k] != nil && flat[2*k+1] != nil)
 
 //@ func UnFlattenECPoints
